@@ -8,13 +8,18 @@ creation orders, different timestamps, once addressed through a symlink to the d
 `dir_hashsums` is run on them. A case is one generated tree plus *every kind* of single edit
 of the property's list applied to it (content byte, rename, add/remove, file<->dir, symlink
 retarget incl. between files of equal content, file<->symlink-to-that-file, respelled link
-texts, symlinks leading outside).
+texts, symlinks leading outside: to the parent, above it, and to entries NEXT TO the hashed
+directory whose names extend / are prefixes of / differ in case from the directory's name).
+Third observation per tree: one long-lived directory is edited IN PLACE from tree to tree of the
+case (changed files are overwritten through the same inode; timestamps natural, restored to
+the previous ones, or all fixed to one instant) and hashed again after every step in the same
+process; the same for single files through `file_hashsum`.
 
 Oracle (needs no model): (a) result == reference nested dict computed from the tree
 description with hashlib; (b) for every pair of trees of a case: equal results <=> equal trees
 under the property's notion (names, file bytes, resolved in-directory symlink targets,
-subdirectories); (c) same result for both creations of a tree; (d) a symlink leading outside is
-rejected with ValueError; (e) hashsum/qualified_hashsum/file_hashsum == hashlib for every
+subdirectories); (c) same result for both creations of a tree and for the directory edited in
+place into that tree; (d) a symlink leading outside is rejected with ValueError; (e) hashsum/qualified_hashsum/file_hashsum == hashlib for every
 accepted algorithm, from bytes, from streams and from streams that return short reads.
 
 Correspondence: rendered nested dict / error class vs. the Lean model `dirHashsums` run on the
@@ -229,6 +234,54 @@ def _mk(world, root, order_rng, mtimes):
             os.utime(os.path.join(root, p), (t, t), follow_symlinks=False)
 
 
+EPOCH_NS = 10**18  # one fixed timestamp for everything written ("epoch" mode: tar -x / rsync -t / SOURCE_DATE_EPOCH)
+
+
+def _morph(root, wa, wb, mode):
+    """Turn the directory `root` (holding world wa) into world wb IN PLACE: unchanged entries are
+    left alone, files whose content changes are overwritten through the same inode, everything
+    else is removed / created. mode: "natural" (timestamps as the OS sets them), "restore"
+    (an overwritten file gets its previous atime/mtime back, as rsync -t / cp -p / touch -r do),
+    "epoch" (every written file and link gets the same fixed timestamp)."""
+    import os
+    import shutil
+    gone = set()
+    for p in sorted(wa, key=lambda q: (q.count("/"), q), reverse=True):
+        a, b = wa[p], wb.get(p)
+        if a == b or (b is not None and a[0] == b[0] and a[0] in ("f", "d")):
+            continue
+        full = os.path.join(root, p)
+        if a[0] == "d":
+            shutil.rmtree(full)
+        else:
+            os.unlink(full)
+        gone.add(p)
+    for p in sorted(wb, key=lambda q: (q.count("/"), q)):
+        b, a = wb[p], wa.get(p)
+        full = os.path.join(root, p)
+        if a is not None and p not in gone:
+            if a != b and b[0] == "f":
+                st = os.stat(full)
+                with open(full, "r+b") as f:
+                    f.write(bytes.fromhex(b[1]))
+                    f.truncate()
+                if mode == "restore":
+                    os.utime(full, ns=(st.st_atime_ns, st.st_mtime_ns))
+                elif mode == "epoch":
+                    os.utime(full, ns=(EPOCH_NS, EPOCH_NS))
+            continue
+        if b[0] == "d":
+            os.makedirs(full, exist_ok=True)
+            continue
+        if b[0] == "f":
+            with open(full, "wb") as f:
+                f.write(bytes.fromhex(b[1]))
+        else:
+            os.symlink(b[1].replace("$R", root), full)
+        if mode == "epoch":
+            os.utime(full, ns=(EPOCH_NS, EPOCH_NS), follow_symlinks=False)
+
+
 def _selfcheck(world, root):
     """The harness' own symlink resolution must agree with the operating system."""
     import os
@@ -268,6 +321,17 @@ class _Rec:
         return c
 
 
+def _scratch(case):
+    """where the trees of a case are created: a memory-backed file system when there is one (directory
+    removal on the disk-backed /tmp costs milliseconds per entry here), the default temp dir for every
+    16th case so that both kinds of directory enumeration order stay covered"""
+    import os
+    d = "/dev/shm"
+    if case.get("seed", 0) % 16 != 0 and os.path.isdir(d) and os.access(d, os.W_OK | os.X_OK):
+        return d
+    return None
+
+
 def impl(case):
     import os
     import random
@@ -281,7 +345,7 @@ def impl(case):
     kind = case["kind"]
     if kind == "hash":
         alg = case["alg"]
-        top = tempfile.mkdtemp(prefix="vtc19-")
+        top = tempfile.mkdtemp(prefix="vtc19-", dir=_scratch(case))
         try:
             for i, h in enumerate(case["data"]):
                 bs = bytes.fromhex(h)
@@ -309,6 +373,36 @@ def impl(case):
                     for name, st, val in res:
                         if st != "ok" or val != want:
                             oracle.append(dict(kind="digest-differs-from-hashlib", via=name, alg=alg, size=len(bs), got=val, want=want))
+                    # the same file again after its bytes were overwritten in place (same inode, same
+                    # size; timestamps natural / restored / fixed): still the digest of the bytes it holds
+                    cur = bs
+                    for k, mode in enumerate(("natural", "restore", "epoch")):
+                        if not bs:
+                            break
+                        pos = (i + 7 * k) % len(bs)
+                        nb = cur[:pos] + bytes([cur[pos] ^ (1 << (k + i) % 8)]) + cur[pos + 1:]
+                        if mode == "epoch":
+                            os.utime(fp, ns=(EPOCH_NS, EPOCH_NS))
+                        seq = []
+                        try:
+                            seq.append((cur, hs.file_hashsum(Path(fp), alg)))   # hashed in its current state ...
+                            st0 = os.stat(fp)
+                            with open(fp, "r+b") as f:                            # ... overwritten ...
+                                f.write(nb)
+                            if mode == "restore":
+                                os.utime(fp, ns=(st0.st_atime_ns, st0.st_mtime_ns))
+                            elif mode == "epoch":
+                                os.utime(fp, ns=(EPOCH_NS, EPOCH_NS))
+                            seq.append((nb, hs.file_hashsum(Path(fp), alg)))    # ... and hashed again
+                        except Exception as e:  # noqa: BLE001
+                            seq.append((nb, "err " + type(e).__name__))
+                        for content, got in seq:
+                            want2 = alg + ":" + hashlib.new(alg, content).hexdigest()
+                            if got != want2:
+                                oracle.append(dict(kind="digest-differs-from-hashlib", via="file-overwritten-in-place/" + mode, alg=alg, size=len(bs),
+                                                   got=got, want=want2))
+                        cur = nb
+                        tags.add("file-overwritten-in-place")
                     out.append(" ".join(["c"] + [str(n) for n in rec.log if n]))
                     tags.add("size%%%d=%d" % (ALGS[alg], len(bs) % ALGS[alg]) if len(bs) % ALGS[alg] in (0, 1, ALGS[alg] - 1) else "size-other")
                     if len(bs) > ALGS[alg]:
@@ -330,8 +424,10 @@ def impl(case):
     worlds = case["worlds"]
     labels = case.get("labels") or ["?"] * len(worlds)
     rng = random.Random(case.get("seed", 0))
-    top = tempfile.mkdtemp(prefix="vtc19-")
+    top = tempfile.mkdtemp(prefix="vtc19-", dir=_scratch(case))
     results = []
+    live = os.path.join(top, "live")
+    live_mode = case.get("live", "restore")
     try:
         for i, w in enumerate(worlds):
             two = []
@@ -354,14 +450,41 @@ def impl(case):
                 except Exception as e:  # noqa: BLE001
                     two.append(("err", type(e).__name__))
                 shutil.rmtree(root, ignore_errors=True)
-            for st, res in two:
+            # third observation: ONE long-lived directory that is edited in place from tree to tree
+            # and hashed again after every step, in this same process
+            if i == 0:
+                os.mkdir(live)
+                _mk(w, live, rng, mtimes=False)
+                if live_mode == "epoch":
+                    for p in w:
+                        os.utime(os.path.join(live, p), ns=(EPOCH_NS, EPOCH_NS), follow_symlinks=False)
+            else:
+                _morph(live, worlds[i - 1], w, live_mode)
+                tags.add("in-place:" + live_mode)
+            try:
+                inpl = ("ok", hs.dir_hashsums(Path(live) / "base", alg))
+            except ValueError:
+                inpl = ("err", "ValueError")
+            except Exception as e:  # noqa: BLE001
+                inpl = ("err", type(e).__name__)
+            for st, res in two + [inpl]:
                 out.append("ok " + render(res) if st == "ok" else "err " + res)
             results.append(two)
             vw = view(w)
             kinds = set(x[0] for x in vw.values())
             if "out" in kinds:
                 tags.add("outside-symlink")
-                for st, res in two:
+                for p, x in vw.items():
+                    if x[0] == "out":
+                        r = resolve_link(w, "base/" + p)
+                        top1 = r[2] if r[:2] == VROOT and len(r) > 2 else None
+                        if top1 is None:
+                            tags.add("outside-symlink:above-the-parent" if r[:2] != VROOT else "outside-symlink:to-the-parent")
+                        elif top1.startswith("base") or "base".startswith(top1):
+                            tags.add("outside-symlink:sibling-name-prefix-related")
+                        else:
+                            tags.add("outside-symlink:unrelated-sibling")
+                for st, res in two + [inpl]:
                     if (st, res) != ("err", "ValueError"):
                         oracle.append(dict(kind="outside-symlink-not-rejected", edit=labels[i], tree=i,
                                            got=render(res) if st == "ok" else res))
@@ -376,6 +499,15 @@ def impl(case):
                         oracle.append(dict(kind="entry-differs-from-reference", edit=labels[i], tree=i, creation=rep, **(first_diff(res, ref) or {})))
                 if two[0][0] == "ok" and two[1][0] == "ok" and two[0][1] != two[1][1]:
                     oracle.append(dict(kind="depends-on-creation-order-or-timestamps", edit=labels[i], tree=i))
+                if inpl != ("ok", ref):
+                    d = dict(kind="hashsums-after-in-place-edit-differ-from-reference", edit=labels[i], trees=[max(i - 1, 0), i], timestamps=live_mode)
+                    if inpl[0] == "ok":
+                        d.update(first_diff(inpl[1], ref) or {})
+                        if i > 0 and inpl[1] == reference(worlds[i - 1], alg) and not has_outside(worlds[i - 1]) and not has_loop(worlds[i - 1]):
+                            d["stale"] = "equals the hashsums of the directory before the edit"
+                    else:
+                        d["got"] = inpl[1]
+                    oracle.append(d)
             for p, x in vw.items():
                 if x[0] == "l":
                     tn = node_at(w, VBASE + [s for s in x[1].split("/") if s != "."])
@@ -409,6 +541,8 @@ def impl(case):
                 a, b = results[i][0], results[j][0]
                 if a[0] != "ok" or b[0] != "ok":
                     continue
+                if any(x[0] in ("out", "loop") for v in (views[i], views[j]) for x in v.values()):
+                    continue  # outside the domain of the equivalence (must be rejected / symlink loop): reported above
                 same_tree = views[i] == views[j]
                 same_hash = a[1] == b[1]
                 if same_hash and not same_tree:
@@ -472,7 +606,7 @@ def lines(case):
             L.append("hashsum %s %s" % (h or "-", hashlib.new(alg, bs).hexdigest() if alg in ALGS else "0"))
         return L
     for w in case["worlds"]:
-        L += tree_lines(w, case["alg"]) + ["build", "rbuild"]
+        L += tree_lines(w, case["alg"]) + ["build", "rbuild", "build"]   # two fresh creations, one directory edited in place
     return L
 
 
@@ -484,6 +618,15 @@ def compare(case, ir, mo):
 NAMES = ["a", "b", "f", "g", "sub", "x y", " sp", "é", "日本", ".hid", "..x", "a.b", "-n", "ü.txt", "l", "k", "d1",
          "a b.c d", "sym", "Z", "0", "~t", "sha256:aa", "symlink:f", "{}"]
 SIZES = [0, 0, 1, 1, 2, 5, 63, 64, 65, 65, 127, 128, 129, 130, 191, 192, 193, 300]
+# names of further entries NEXT TO the hashed directory "base" (all of them outside of it): names that
+# extend / are extended by / differ in case from the directory's name, and unrelated ones
+SIBLINGS = ["base_old", "base2", "base.bak", "base-v2", "base ", "basebase", "bas", "b", "Base", "ase", "xbase", "other", "base~"]
+LIVE_MODES = ["restore", "restore", "epoch", "natural"]
+
+
+def areas_of(w):
+    """top-level directories of the scratch root other than the hashed one"""
+    return sorted(p for p, n in w.items() if "/" not in p and p != "base" and n[0] == "d")
 
 
 def rbytes(rng, n):
@@ -525,12 +668,19 @@ def link_text(rng, src, dst, w=None):
         t = "$R/" + dst
     elif r < 0.36:
         # leave the directory and come back in
-        t = posixpath.relpath("out", sd) + "/../" + dst
+        t = posixpath.relpath(rng.choice(areas_of(w)) if w and areas_of(w) else "out", sd) + "/../" + dst
     return t
 
 
 def gen_world(rng, size, pool):
     w = {"base": ["d"], "out": ["d"], "out/of": ["f", rng.choice(pool)], "out/od": ["d"], "out/od/in": ["f", "6f"]}
+    for sib in rng.sample(SIBLINGS, rng.choice([0, 1, 1, 2])):
+        if rng.random() < 0.2:
+            w[sib] = ["f", rng.choice(pool)]
+        else:
+            w[sib] = ["d"]
+            w[sib + "/of"] = ["f", rng.choice(pool)]
+            w[sib + "/od"] = ["d"]
     for _ in range(size):
         d = rng.choice(dirs_of(w))
         n = fresh_name(rng, w, d)
@@ -693,24 +843,27 @@ def gen_edits(rng, w0, pool, per_kind):
                 add("add-symlink-to-file " + p, w)
                 add("add-copy-of-file " + p, w2)
     # symlinks leading outside
-    for _ in range(2):
+    tops = sorted(q for q in w0 if "/" not in q and q != "base")   # entries next to the hashed directory
+    outside = ["."] + tops + [q for q in w0 if "/" in q and q.split("/")[0] in tops] + [t + "/nope" for t in areas_of(w0)]
+    for _ in range(3):
         d = rng.choice(dirs_of(w0))
         n = fresh_name(rng, w0, d)
         if n is None:
             continue
         p = d + "/" + n
         w = copy.deepcopy(w0)
-        tgt = rng.choice(["out/of", "out/od", "out/nope", "out", "."])
+        tgt = rng.choice(outside)
         up = "/".join([".."] * (p.count("/")))
         t = rng.choice([up + "/" + tgt if tgt != "." else up, "$R/" + tgt if tgt != "." else "$R", up + "/../vt-no-such-entry"])
         w[p] = ["l", t]
-        add("outside-link->%s %s" % (tgt, p), w)
+        add("outside-link %s -> %s" % (p, tgt), w)
     if files:
         # an existing file replaced by a link to an outside file of the same content
         p = rng.choice(files)
         w = copy.deepcopy(w0)
-        w["out/twin"] = ["f", w0[p][1]]
-        w[p] = ["l", "/".join([".."] * p.count("/")) + "/out/twin"]
+        area = rng.choice(areas_of(w0))
+        w[area + "/twin"] = ["f", w0[p][1]]
+        w[p] = ["l", "/".join([".."] * p.count("/")) + "/" + area + "/twin"]
         add("file->outside-link " + p, w)
     return E
 
@@ -724,7 +877,7 @@ def gen_cases(ctx, scale=1.0):
         pool = [rbytes(rng, rng.choice(SIZES)).hex() for _ in range(rng.randrange(2, 5))]
         w0 = gen_world(rng, rng.randrange(1, 12), pool)
         E = gen_edits(rng, w0, pool, per_kind=2 if ctx.quick else 3)
-        cases.append(dict(kind="trees", alg=alg, seed=rng.randrange(1 << 30), via_link=rng.random() < 0.2,
+        cases.append(dict(kind="trees", alg=alg, seed=rng.randrange(1 << 30), via_link=rng.random() < 0.2, live=rng.choice(LIVE_MODES),
                           worlds=[w0] + [w for _, w in E], labels=["base"] + [l for l, _ in E]))
     nh = int((30 if ctx.quick else 300) * scale)
     for i in range(nh):
@@ -744,9 +897,9 @@ def exhaustive_cases():
     leaf = [["f", ""], ["f", "61"], ["f", "62"], ["d"], None]
     fam = []
     for x in leaf:
-        for y in [["f", "61"], ["d"], ["l", "a"], ["l", "nope"], ["l", "."], None]:
-            for z in ([["f", "61"], ["l", "../a"], None] if y == ["d"] else [None]):
-                w = {"base": ["d"], "out": ["d"]}
+        for y in [["f", "61"], ["d"], ["l", "a"], ["l", "nope"], ["l", "."], None, ["l", ".."], ["l", "../out"], ["l", "../base2"], ["l", "../bas/x"]]:
+            for z in ([["f", "61"], ["l", "../a"], None, ["l", "../../base2/a"]] if y == ["d"] else [None]):
+                w = {"base": ["d"], "out": ["d"], "base2": ["d"], "base2/a": ["f", "61"], "bas": ["d"]}
                 if x:
                     w["base/a"] = x
                 if y:
@@ -767,9 +920,14 @@ def run(ctx):
     ctx.rule = ("cases: (trees) one generated directory tree (<= 12 entries below the hashed directory: files with sizes around the 64/128 byte "
                 "block size, empty files, nested/empty directories, symlinks to files/dirs/nothing/other symlinks, odd names) plus several instances of "
                 "every single edit of the property's list; each tree is created twice on a real file system (shuffled creation order, changed mtimes, "
-                "optionally addressed through a symlink) and hashed by dir_hashsums; all pairs of trees of a case are compared. (hash) byte strings of "
-                "boundary sizes through hashsum/qualified_hashsum/file_hashsum incl. streams with short reads, for sha256, sha512 and unsupported names. "
-                "Non-trivial = carries a tag: symlink kinds, chains, empty dir/file, file larger than a block, outside symlink, odd names, edit kinds.")
+                "optionally addressed through a symlink) and hashed by dir_hashsums; in addition one long-lived directory is edited in place from tree to tree "
+                "(same inode overwrites; timestamps natural / restored / fixed) and hashed after every step in the same process; all pairs of trees of a case "
+                "are compared. Outside symlinks lead to the parent, above it, and to sibling entries of the hashed directory incl. names that extend or are "
+                "prefixes of its name. (hash) byte strings of "
+                "boundary sizes through hashsum/qualified_hashsum/file_hashsum incl. streams with short reads and files overwritten in place between two "
+                "calls, for sha256, sha512 and unsupported names. "
+                "Non-trivial = carries a tag: symlink kinds, chains, empty dir/file, file larger than a block, outside symlink (by kind of target), odd names, "
+                "edit kinds, in-place timestamp mode.")
     ctx.assumptions += [
         "hashlib: update(a); update(b) == update(a+b) (hypothesis `Streaming` of chunking_independent / hashsum_is_standard_digest)",
         "no SHA collision among the file contents of the two directories compared (hypothesis `NoCollision` of hashsums_injective)",
@@ -778,12 +936,14 @@ def run(ctx):
         "symlink targets are compared after resolution (`Path.resolve`), i.e. `l -> m -> f` and `l -> f` count as the same in-directory target",
         "special files (fifos, sockets, devices) and symlink loops are outside the property's domain",
     ]
+    ctx.assumptions.append("trees are created below /dev/shm (tmpfs) when it is writable, every 16th case and all single-file cases below the default temp dir")
     ctx.trusted.append("harness-side pure resolver of symlinks (harness/props/c19.py resolve), self-checked against os.path.realpath on every tree")
     cases = core.load_corpus(ID) + gen_cases(ctx)
     if not ctx.quick:
         ex, n = exhaustive_cases()
         cases += ex
-        ctx.exhaustive_spaces.append("all pairs of the %d trees over names a, b (a: empty file/file/other file/dir/absent; b: file/dir(+child file|symlink)/symlink to a/dangling/self/absent): equal hashsums <=> equal trees" % n)
+        ctx.exhaustive_spaces.append("all pairs of the %d trees over names a, b (a: empty file/file/other file/dir/absent; b: file/dir(+child file|symlink|symlink to a sibling of the directory)/symlink to a/dangling/self/absent/symlink to the parent or to siblings "
+                                     "out, base2, bas of the hashed directory): equal hashsums <=> equal trees, outside symlinks rejected" % n)
     ctx.correspond("dir-hashsums-model", MOD, cases, lines, "drv_hsh", compare=compare, timeout=120)
 
 
@@ -803,7 +963,26 @@ def _oracle_kinds(case, timeout=120):
     return r["ok"]["oracle"]
 
 
+INPLACE = "hashsums-after-in-place-edit-differ-from-reference"
+
+
+def _shrink_hash(case, detail):
+    """hash cases: the single byte string that still shows the same kind of violation"""
+    want = detail.get("kind")
+    for h in sorted(case.get("data", []), key=len):
+        cand = dict(case, data=[h])
+        ds = [d for d in _oracle_kinds(cand) if d.get("kind") == want and d.get("via") == detail.get("via")]
+        if ds:
+            return cand, ds[0]
+    return case, detail
+
+
 def shrink(ctx, case, detail):
+    if case.get("kind") == "hash" and isinstance(detail, dict):
+        key = ("hash", detail.get("kind"), detail.get("via"))
+        if key not in _shrunk:
+            _shrunk[key] = _shrink_hash(case, detail)
+        return _shrunk[key]
     if case.get("kind") != "trees" or not isinstance(detail, dict):
         return case, detail
     want = detail.get("kind")
@@ -816,8 +995,23 @@ def shrink(ctx, case, detail):
 def _shrink(ctx, case, detail, want):
     idx = detail.get("trees") or [0, detail.get("tree", 0)]
     idx = sorted(set(i for i in idx if i < len(case["worlds"])))
-    cur = dict(case, worlds=[case["worlds"][i] for i in idx], labels=[case["labels"][i] for i in idx], via_link=False)
-    ds = [d for d in _oracle_kinds(cur) if d.get("kind") == want]
+
+    def sub(ix):
+        return dict(case, worlds=[case["worlds"][i] for i in ix], labels=[case["labels"][i] for i in ix], via_link=False)
+
+    def hits(c):
+        return [d for d in _oracle_kinds(c) if d.get("kind") == want]
+
+    if want == INPLACE:
+        # the history matters: the directory went through all trees up to the failing one. Smallest
+        # sub-sequence of that history (order kept, failing tree last) that still fails.
+        last = idx[-1]
+        pre = core.ddmin(list(range(last)), lambda ix: bool(hits(sub(list(ix) + [last]))), max_tests=40)
+        idx = list(pre) + [last]
+        if not hits(sub(idx)):
+            idx = list(range(last + 1))
+    cur = sub(idx)
+    ds = hits(cur)
     if not ds:
         return case, detail
     best = ds[0]
